@@ -20,9 +20,10 @@ def entry(kind, name, short="", env="", mv="ARG", desc="", dflt=None, rev=False)
     return ",".join([kind, hexs(name), hexs(short), hexs(env), hexs(mv), hexs(desc), d, "1" if rev else "0"])
 
 
-def ucase(app, about, posflag, posname, groups, again=False, parsed=False):
+def ucase(app, about, posflag, posname, groups, again=False, parsed=False, early=False):
     return "\t".join(["usage", hexs(app), hexs(about),
-                      "%d,%s%s" % (1 if posflag else 0, hexs(posname), (",%d,%d" % (again, parsed)) if (again or parsed) else ""),
+                      "%d,%s%s" % (1 if posflag else 0, hexs(posname),
+                                   (",%d,%d,%d" % (again, parsed, early)) if (again or parsed or early) else ""),
                       ";".join("%s:%s:%s" % (hexs(n), hexs(d), "|".join(es)) for n, d, es in groups)])
 
 
@@ -76,7 +77,7 @@ def gen_c15(tier, rng):
             groups.append((gname, gdesc, es))
         app = rng.choice(["main", "p", "application-name", "a" * 30])
         about = rng.choice(["", "short about", text(rng, 5)])
-        out.append(ucase(app, about, rng.chance(1, 3), rng.choice(["args", "FILES"]), groups, again=rng.chance(1, 3), parsed=rng.chance(1, 3)))
+        out.append(ucase(app, about, rng.chance(1, 3), rng.choice(["args", "FILES"]), groups, again=rng.chance(1, 3), parsed=rng.chance(1, 3), early=rng.chance(1, 3)))
     # the zones of the known findings (left column wider than 80, long application name, long about line)
     out.append(ucase("main", "", False, "args", [("arguments", "", [entry("o", "n" * 50, mv="M" * 40, desc="d")])]))
     out.append(ucase("a" * 75, "", True, "args", [("arguments", "", [entry("t", "v", "v"), entry("o", "out", "o")])]))
